@@ -686,16 +686,18 @@ class Interp:
 
     def _enclosing_none_guard(self, node):
         """name of an optional parameter p such that the write is enclosed by `if p is not None`"""
-        from .flow import dominating_tests
+        from .flow import dominating_tests, none_test, preceding_guards
 
-        for test, pol in dominating_tests(node, self.fn.node):
-            e = test
-            if pol and isinstance(e, ast.Compare) and len(e.ops) == 1 and isinstance(e.ops[0], ast.IsNot):
-                if isinstance(e.left, ast.Name) and isinstance(e.comparators[0], ast.Constant) and e.comparators[0].value is None:
-                    p = e.left.id
-                    d = self.fn.defaults.get(p)
-                    if isinstance(d, ast.Constant) and d.value is None:
-                        return p
+        # `if p is not None: <write>` and the early-exit form `if p is None: return ..` before the write
+        for test, pol in list(dominating_tests(node, self.fn.node)) + list(preceding_guards(node, self.fn.node)):
+            nt = none_test(test)
+            if nt is None:
+                continue
+            text, holds_when_not_none = nt
+            if holds_when_not_none == pol and text.isidentifier():
+                d = self.fn.defaults.get(text)
+                if isinstance(d, ast.Constant) and d.value is None:
+                    return text
         return None
 
     # -- expressions -----------------------------------------------------------------------
